@@ -10,3 +10,4 @@ import PG.Props.C01
 #print axioms PG.C01_terminator_indep
 #print axioms PG.okRecs_resync
 #print axioms PG.okRecs_noise
+#print axioms PG.okRecs_printed
